@@ -172,11 +172,7 @@ def mk_mod_case(rnd, fam, dma=False, nums=NUMS, clean_only=False):
                 lines.append('now %d' % t)
                 lines.append('ps_res path=%s' % hx(p))
         else:
-            # RestoreAttribute("__name") on an object with original_attributes renames the object to "" (same defect as
-            # restore-unmodified-wipes; it breaks the fixture's clean-up, so it is not generated)
-            lines.append('ps_res path=%s' % hx('nosuch' if p in ('__name', 'version') else p))
-    bad = ('ps_res path=' + hx('__name'), 'ps_res path=' + hx('version'))
-    lines = [('ps_res path=' + hx('nosuch')) if l in bad else l for l in lines]
+            lines.append('ps_res path=%s' % hx(p))
     # nested paths below the String/double typed fields are not modelled (Value::IsEmpty() is true for "", the resulting
     # dictionary is converted to its string representation by SetField): keep nested paths under vars only
     for pfx in ('notes.', 'check_interval.'):
